@@ -21,10 +21,10 @@ type cmdInfo struct {
 	size   int // only used to pick byte lengths for decode inputs; never compared
 }
 
-func u8(n string) fld          { return fld{n, n, "u8"} }
-func u8p(n, p string) fld      { return fld{n, p, "u8"} }
-func bl(n string) fld          { return fld{n, n, "bool"} }
-func fq(n string) fld          { return fld{n, n, "freq"} }
+func u8(n string) fld                { return fld{n, n, "u8"} }
+func u8p(n, p string) fld            { return fld{n, p, "u8"} }
+func bl(n string) fld                { return fld{n, n, "bool"} }
+func fq(n string) fld                { return fld{n, n, "freq"} }
 func key(dir string, cid int) string { return fmt.Sprintf("%s/%d", dir, cid) }
 
 var cmdTab = map[string]cmdInfo{
